@@ -91,6 +91,21 @@ def build_cases(tier):
                        '(ite (and (fp.isZero {x}) (fp.isZero {y})) (ite (fp.isNegative {x}) {x} {y}) (ite (fp.lt {x} {y}) {x} {y}))))').format(x=x, y=y)
     C.append(fp_case('math_Max', 'math.Max(x0, x1)', mx, nargs=2))
     C.append(fp_case('math_Min', 'math.Min(x0, x1)', mn, nargs=2))
+    def p2(e):
+        return '((_ to_fp 11 53) RNE %s)' % ('%d.0' % (2 ** e) if e >= 0 else '(/ 1.0 %d.0)' % (2 ** -e))
+    fast = [-1023, -1022, -53, -1, 0, 1, 52, 1000, 1023]
+    pick = lambda xs: 'e := 0\nswitch NondetRange(1, 0, %d) {\n' % (len(xs) - 1) + ''.join('case %d:\n\te = keep(%d)\n' % (i, e) for i, e in enumerate(xs)) + '}\n'
+    KEEP = '//go:noinline\nfunc keep(x int) int { return x }\n'      # a call: keeps the engine from merging the switch into one symbolic exponent
+    C.append(T('math_Ldexp_fast', ['import "math"\n', KEEP], 'f := NondetFloat64(0)\n' + pick(fast) + 'VerifOutF64("l", math.Ldexp(f, e))',
+               lambda inp: [('(= in_1 %d)' % i, [('l', [('f64', '(fp.mul RNE in_0 %s)' % p2(e))])], 'normal') for i, e in enumerate(fast)]))
+    # just outside the Math.pow fast path the override falls back to the upstream bit-manipulating ldexp, which the engine cannot follow (typed-array
+    # bit aliasing): those paths are reported as inconclusive on the unchanged tree; a fast path that is wrongly widened is decided (2^1024 overflows)
+    edge = [1024, -1024, 1025]
+    scale = {1024: lambda x: '(fp.mul RNE (fp.mul RNE %s %s) %s)' % (x, p2(1023), p2(1)), 1025: lambda x: '(fp.mul RNE (fp.mul RNE %s %s) %s)' % (x, p2(1023), p2(2)),
+             -1024: lambda x: '(fp.mul RNE %s %s)' % (x, '((_ to_fp 11 53) RNE (/ 1.0 %d.0))' % (2 ** 1024))}
+    C.append(T('math_Ldexp_edge', ['import "math"\n', KEEP], 'f := NondetFloat64(0)\n' + pick(edge) + 'VerifOutF64("l", math.Ldexp(f, e))',
+               lambda inp: [('(and (= in_1 %d) (fp.lt (fp.abs in_0) %s))' % (i, p2(0)), [('l', [('f64', scale[e]('in_0'))])], 'normal') for i, e in enumerate(edge) if e > 0] +
+                           [('(not (and (or (= in_1 0) (= in_1 2)) (fp.lt (fp.abs in_0) %s)))' % p2(0), [('l', [None])], 'normal')]))
     return C
 
 
